@@ -128,7 +128,56 @@ def racing(draw, ctx):
 
 
 @st.composite
+def edge(draw, ctx):
+    """A signal issued at (virtually) the same instant as a deadline: one timed waiter W
+    among untimed ones; the orchestrator advances the clock to a few microseconds before
+    W's deadline and signals at once, so that the signaller's critical section falls into
+    W's time-out path.  Whoever wins, that one signal - issued while an untimed waiter was
+    certainly queued - must produce exactly one successful return (W's if it was dequeued,
+    otherwise the next waiter's): the orchestrator waits for it (lost signal = hang), and
+    the credit accounting flags a second one."""
+    topo, npools, nxs = draw(simple_topology(max_xs=3))
+    lines = [draw(sched_line(ctx, extra=" tick=%d" % draw(st.sampled_from([1, 1, 4])))),
+             ] + topo
+    lines.append("mutex 0 kind=%s" % draw(st.sampled_from(["dyn", "static"])))
+    lines.append("cond 0 kind=%s" % draw(st.sampled_from(["dyn", "static"])))
+    w = draw(st.integers(2, 5))
+    wi = draw(st.integers(0, w - 1))          # position of the timed waiter in the queue
+    D = draw(st.integers(1, 4))               # ms
+    delta = draw(st.sampled_from([0, 0, 1, 1, 2, 3, 5, 8, 20]))
+    units, exts, creates, main = [], [], [], []
+    for i in range(w):
+        kind = draw(st.sampled_from(["ult", "ult", "ext"]))
+        wait = "ctimedwait 0 0 %d" % D if i == wi else \
+            draw(st.sampled_from(["cwait 0 0", "cwait 0 0", "ctimedwait 0 0 %d" % FAR]))
+        prog = ["fwait %d" % (i + 1), "lock 0", wait, "unlock 0"]
+        if kind == "ext":
+            exts.append(prog)
+        else:
+            u = len(units)
+            units.append("unit %d type=ult named=%d pool=%d : %s" %
+                         (u, int(draw(st.booleans())), draw(st.integers(0, npools - 1)), "; ".join(prog)))
+            creates.append("create %d" % u)
+    main += creates
+    for i in range(w):
+        main += ["fset %d" % (i + 1), "awaitvar %d %d" % (CREG, i + 1), "lock 0", "unlock 0"]
+    main += ["advance %d" % max(0, D * 1000 - delta), "lock 0", "csignal 0 0", "unlock 0",
+             "awaitvar_t %d 1 5" % COK]
+    if draw(st.booleans()):
+        main += ["lock 0", "csignal 0 0", "unlock 0", "awaitvar_t %d 2 5" % COK] if w >= 3 else []
+    main += ["lock 0", "cbroadcast 0 0", "unlock 0"]
+    for i, p in enumerate(exts):
+        lines.append("ext %d : %s" % (i, "; ".join(p)))
+    lines += units
+    lines.append("main : " + "; ".join(main))
+    lines.append("note edge")
+    return "\n".join(lines) + "\n"
+
+
+@st.composite
 def cases(draw, ctx):
+    if ctx.get("variant") == "edge":
+        return draw(edge(ctx))
     if ctx.get("variant") == "pool":
         # blocking pops (pop_wait / pop_timedwait, virtual timeouts) racing with pushes:
         # the histories of gen/c07.py, judged for linearizability (no unit lost) and
@@ -197,7 +246,7 @@ def judge(text, res, ctx):
 def classify(text, res, ctx):
     if "note kind=" in text:
         return ["pool_blocking_pops"] + (["pool_pops_empty"] if stat(res, "pool_pops_empty") else [])
-    out = ["racing" if "note racing" in text else "phased"]
+    out = ["racing" if "note racing" in text else "edge" if "note edge" in text else "phased"]
     for k in ("cond_timedout", "cond_credit_retired", "signal_no_waiter"):
         if stat(res, k):
             out.append(k)
@@ -212,7 +261,7 @@ def nontrivial(text, res, ctx):
 
 
 PLAN = {
-    "quick": [("coarse", 9, 500), ("san", 2, 150), ("native", 2, 150), ("coarse", 2, 300, "pool"), ("san", 1, 150, "pool")],
-    "thorough": [("coarse", 5, 5000), ("fine", 5, 3000), ("san", 2, 1500), ("nopool", 1, 1000),
+    "quick": [("coarse", 4, 500, "edge"), ("coarse", 7, 500), ("san", 2, 150), ("native", 2, 150), ("coarse", 2, 300, "pool"), ("san", 1, 150, "pool")],
+    "thorough": [("coarse", 4, 8000, "edge"), ("fine", 2, 3000, "edge"), ("coarse", 5, 5000), ("fine", 5, 3000), ("san", 2, 1500), ("nopool", 1, 1000),
                  ("native", 1, 1500), ("fine", 1, 3000, "pool"), ("san", 1, 2000, "pool")],
 }
